@@ -262,6 +262,59 @@ Section Accept.
         unfold gslice. rewrite !firstn_length, !skipn_length, L, L2. reflexivity.
     Qed.
 
+    (* ---- the same facts without any hypothesis on the hash: acceptance EXHIBITS a collision ---- *)
+    Lemma accepted_mid_eq s' k' c d :
+      decrypt sha256 aes_dec s' k' c = Ok d ->
+      firstn 16 (skipn 8 c) = message_key sha256 (ak_value k) padded s ->
+      message_key_of_large (sha256 (mac_input (ak_value k') (decrypted_plaintext sha256 aes_dec s' k' c) (other s')))
+      = message_key_of_large (sha256 (mac_input (ak_value k) padded s)).
+    Proof. intros H M. rewrite <- (accepted_mac s' k' c d H), M. apply message_key_mac. Qed.
+
+    Theorem accepted_body_tamper_collides c' d :
+      firstn 24 c' = firstn 24 ct -> c' <> ct ->
+      decrypt sha256 aes_dec (other s) k c' = Ok d ->
+      collision sha256 (mac_input (ak_value k) (decrypted_plaintext sha256 aes_dec (other s) k c') s)
+                       (mac_input (ak_value k) padded s).
+    Proof.
+      intros P N H.
+      assert (firstn 16 (skipn 8 c') = message_key sha256 (ak_value k) padded s) as M
+        by (rewrite mid_16_of_24, P, <- mid_16_of_24; apply sealed_mk).
+      pose proof (accepted_mid_eq (other s) k c' d H M) as Q. rewrite other_other in Q.
+      split; [|exact Q].
+      intros E. apply app_inv_head in E.
+      destruct (accepted_is_sealed (other s) k c' d H) as (E' & _). rewrite other_other, E in E'.
+      apply N. exact E'.
+    Qed.
+
+    Theorem accepted_reflection_collides d :
+      length (ak_value k) = 256%nat ->
+      gslice (ak_value k) (88 + x_of s) (32 + 88 + x_of s)
+        <> gslice (ak_value k) (88 + x_of (other s)) (32 + 88 + x_of (other s)) ->
+      decrypt sha256 aes_dec s k ct = Ok d ->
+      collision sha256 (mac_input (ak_value k) (decrypted_plaintext sha256 aes_dec s k ct) (other s))
+                       (mac_input (ak_value k) padded s).
+    Proof.
+      intros L D H. split; [|exact (accepted_mid_eq s k ct d H sealed_mk)].
+      intros E. unfold mac_input in E. apply app_inv_len in E as [E _]; [apply D; symmetry; exact E|].
+      unfold gslice. rewrite !firstn_length, !skipn_length, L. rewrite !x_of_cases. destruct s; vm_compute; reflexivity.
+    Qed.
+
+    Theorem accepted_foreign_key_collides k2 d :
+      length (ak_value k) = 256%nat -> length (ak_value k2) = 256%nat ->
+      gslice (ak_value k2) (88 + x_of s) (32 + 88 + x_of s) <> gslice (ak_value k) (88 + x_of s) (32 + 88 + x_of s) ->
+      decrypt sha256 aes_dec (other s) k2 ct = Ok d ->
+      ak_id k2 = ak_id k /\
+      collision sha256 (mac_input (ak_value k2) (decrypted_plaintext sha256 aes_dec (other s) k2 ct) s)
+                       (mac_input (ak_value k) padded s).
+    Proof.
+      intros L L2 D H. split.
+      - pose proof H as H'. apply decrypt_accept_iff in H'. destruct H' as (_ & K & _). rewrite sealed_kid in K. symmetry; exact K.
+      - pose proof (accepted_mid_eq (other s) k2 ct d H sealed_mk) as Q. rewrite other_other in Q.
+        split; [|exact Q].
+        intros E. unfold mac_input in E. apply app_inv_len in E as [E _]; [apply D; exact E|].
+        unfold gslice. rewrite !firstn_length, !skipn_length, L, L2. reflexivity.
+    Qed.
+
     (* whatever else is accepted (in particular with a modified msg_key) is itself a complete
        genuine sealing of a DIFFERENT plaintext under the same key and direction: producing it
        requires the secret bytes auth_key[88+x .. 120+x] *)
